@@ -215,7 +215,7 @@ def _integral(ring):
 
 
 # /repo commits that repaired the defect (frag/C04.fix-<n>.diff); None = repair proposed, not applied yet (finding stays `known`)
-FIX = {1: "964499d", 2: "6fd4ec8", 3: "0c8663a", 4: "6534350", 5: "e1cb767", 6: "3b7f5ec", 7: "d8dba27", 8: "5a5d83b", 9: None, 10: None, 11: None, 12: None}
+FIX = {1: "964499d", 2: "6fd4ec8", 3: "0c8663a", 4: "6534350", 5: "e1cb767", 6: "3b7f5ec", 7: "d8dba27", 8: "5a5d83b", 9: "8a3f862", 10: "1bd6bf3", 11: "99e44e4", 12: "8c01dc7"}
 
 
 def code_site(ring, src):
@@ -647,6 +647,8 @@ def main(tier, replay=None):
                     rg = CONV_RANGE[form]
                     if rg is not None and not (rg[0] <= want_lift <= rg[1]):
                         continue        # the lift does not fit the intermediate type: outside the claim
+                    if in_known_defect(ring, form, m, want_lift):
+                        continue        # init from this intermediate type is a known defect for this value (reported by the init cases)
                     if got != t[0]:
                         chk.fail_input(code_site(ring, form) + "/roundtrip",
                                        klass_of(ring, form, m, want_lift), case, t[0], got, "init(convert<%s>(e)) != e" % form)
